@@ -43,13 +43,21 @@
                  evaluated left to right in the caller, omitted ones take the callee's defaults) and binds the n >= 2 values
                  of its [return] to n slots of the caller ([[a, e[k-1]] = levdown(a, e[k])]: the translator then emits the
                  stores of the targets, left to right).  Arrays are passed and returned by value; the translator's aliasing
-                 pass is run on the callee too.  A callee that returns another number of values is [Unsupported]. *)
+                 pass is run on the callee too.  A callee that returns another number of values is [Unsupported].
+
+   Added for the wrappers aryule / ma / ac2poly / ac2rc / poly2ac / poly2rc / ar2rc / rc2poly / rc2ac (T6):
+     calls     : the callee of an [SCall] may live in ANOTHER module of the package (the translator resolves the module's imports
+                 syntactically); keyword and omitted arguments are positions of the argument list ([None] = the callee's default), the
+                 hidden oracle parameters of a callee (CORRELATION's two pylab_rms_flat results) are hidden parameters of the caller;
+                 [SCall1] is [d = f(args)] for a callee that returns exactly one value (a callee that falls off its end gives None; a
+                 tuple value is [Unsupported]: a name bound to the tuple a call returns is translated to one slot per component);
+     exceptions: NotImplementedError (ar2rc). *)
 Require Import Spectrum.Theory.Ops Spectrum.Theory.Vec.
 From Coq Require Import String.
 From Coq Require Export ZArith List.
 Local Open Scope Z_scope.
 
-Inductive exc := ValueError | AssertionError | IndexError | ZeroDivisionError | TypeError | UnboundLocal | Unsupported.
+Inductive exc := ValueError | AssertionError | IndexError | ZeroDivisionError | TypeError | UnboundLocal | Unsupported | NotImplementedError.
 
 Inductive binop := BAdd | BSub | BMul | BDiv | BFloorDiv | BMod.
 Inductive cmpop := CEq | CNe | CLt | CLe | CGt | CGe.
@@ -110,8 +118,10 @@ Inductive stmt :=
 | SAppend (x : nat) (e : expr)        (* x.append(e) on a Python list of scalars that is only appended to and returned *)
 | SStore2 (x : nat) (i j e : expr)    (* x[i, j] = e on a matrix *)
 | SStoreCol (x : nat) (j e : expr)    (* x[:, j] = e on a matrix *)
-| SCall (dsts : list nat) (nparams : nat) (defaults : list (option expr)) (nslots : nat) (body : stmt) (args : list (option expr)).
+| SCall (dsts : list nat) (nparams : nat) (defaults : list (option expr)) (nslots : nat) (body : stmt) (args : list (option expr))
                                       (* [d0, d1, ..] = f(args): the callee's program inlined as a term; fresh store *)
+| SCall1 (dst : nat) (nparams : nat) (defaults : list (option expr)) (nslots : nat) (body : stmt) (args : list (option expr)).
+                                      (* d = f(args) for a callee that returns ONE value (r = CORRELATION(X, maxlags=order, norm=norm)) *)
 
 Record program := mkProgram {
   p_name : string;
@@ -493,6 +503,16 @@ Fixpoint exec (s : stmt) (st : store) {struct s} : store * ctl :=
                                else (st, CErr Unsupported)
              | (_, CErr e) => (st, CErr e)
              | (_, CNormal) | (_, CBreak) | (_, CContinue) => (st, CErr TypeError)     (* None cannot be unpacked *)
+             end)
+  | SCall1 dst nparams defs nslots body args =>
+      try st (vs <- eval_oargs st args ;; bind_args defs vs)
+          (fun vals =>
+             match exec body (vals ++ repeat VUnbound (nslots - nparams)) with
+             | (_, CRet [r]) => (set st dst r, CNormal)
+             | (_, CRet _) => (st, CErr Unsupported)          (* a tuple value: not in the IR *)
+             | (_, CErr e) => (st, CErr e)
+             | (_, CNormal) => (set st dst VNone, CNormal)    (* the callee fell off its end: None *)
+             | (_, CBreak) | (_, CContinue) => (st, CErr TypeError)
              end)
   end.
 
